@@ -404,6 +404,7 @@ type execution struct {
 	sameFinding bool
 	everMask    int  // union of all lists received so far
 	trigErr     bool // some reply so far was one the client treats as an error (it then reports no list)
+	trigRetry   bool // a RetryableAuthMethod went into a second try (it reports the list of its last try only)
 	trigQuery   bool // some FAILURE answering a publickey query carried a list different from the one before
 	ack         *ackState
 	nack        string // why the latest query was not acknowledged
@@ -540,7 +541,10 @@ func (e *execution) decide() {
 			e.logReply(r, "")
 			e.haveList, e.lastMask, e.lastExtra, e.lastCtx = true, r.mask, r.partial, q
 			e.everMask |= r.mask
-			if q == qPKQuery && (!e.haveDone || r.mask != e.doneMask) {
+			// the list of a FAILURE that answers a query is not recorded by the client; its
+			// view differs from the server's if this list is new, or if the publickey call
+			// that now may end without reporting a list received one earlier (signed request)
+			if q == qPKQuery && (!e.haveDone || r.mask != e.doneMask || (e.haveRun && e.runMask != e.doneMask)) {
 				e.trigQuery = true
 			}
 			if q != qPKQuery {
@@ -726,7 +730,7 @@ const knownRetryUnlisted = "RetryableAuthMethod tries its method again although 
 // clientAuthenticate then falls back to the list it had before the call, although the
 // server sent a newer list earlier within the same call (previous try of a
 // RetryableAuthMethod, previous key of PublicKeys).
-const knownErrStale = "method list received earlier within one AuthMethod call (previous try of RetryableAuthMethod, previous key of PublicKeys) is dropped when the call ends with an error: the next method is chosen from the list that preceded the call"
+const knownErrStale = "method list received earlier within one AuthMethod call (earlier try of RetryableAuthMethod, earlier key of PublicKeys) is dropped when the call finally reports no list (its last step ended with an error or with refused key queries): the next method is chosen from the list that preceded the call"
 
 var seenStates sync.Map
 
@@ -801,6 +805,9 @@ func (e *execution) request(m *ref.ClientMsg, ack *ackState) {
 		return
 	}
 
+	if m.Method == e.prevMethod && e.retryOf(m.Method) > 0 && e.prevPlain {
+		e.trigRetry = true
+	}
 	// (1) after the initial none only methods of the server's latest list
 	if first {
 		if q != qNone {
@@ -826,7 +833,7 @@ func (e *execution) request(m *ref.ClientMsg, ack *ackState) {
 			// the only list that does not name the method is one carried by a FAILURE
 			// that answered a publickey query
 			e.violate(knownQueryList, fmt.Sprintf("%s sent; latest list %v, list before the query was answered %v", desc, maskList(e.lastMask), maskList(e.doneMask)))
-		case e.trigErr && e.everMask&bit != 0:
+		case (e.trigErr || e.trigRetry) && e.everMask&bit != 0:
 			// an earlier AuthMethod call of this execution ended with an error, so the client
 			// may have fallen back to any older list; an older list named the method
 			e.violate(knownErrStale, fmt.Sprintf("%s sent; latest list %v, lists so far named %v", desc, maskList(e.lastMask), maskList(e.everMask)))
